@@ -1134,6 +1134,25 @@ func (u *Unit) loopEnv(f *Frame, st *State, fn *ssa.Function, header int) *SpecE
 			best[c.name] = cand{c, a.Pos()}
 		}
 	}
+	if header < 0 && f.envPos.IsValid() {
+		// a name that is only declared after the program point still resolves (to its current,
+		// i.e. zero or havocked, value): one clause may serve several call sites of the function
+		later := map[string]cand{}
+		for a, c := range f.cells {
+			if c.name == "" {
+				continue
+			}
+			if _, ok := best[c.name]; ok {
+				continue
+			}
+			if b, ok := later[c.name]; !ok || a.Pos() < b.pos {
+				later[c.name] = cand{c, a.Pos()}
+			}
+		}
+		for n, b := range later {
+			best[n] = b
+		}
+	}
 	for name, b := range best {
 		if sv, ok := u.staticCells[b.c]; ok {
 			vars[name] = sv
